@@ -4,7 +4,7 @@ Proof: Properties/C17.v.  Correspondence: the buffer model against the real Buff
 sequences (codec harness, debug + release), the emit model against push_ber swept octet by octet across
 127/128, 255/256 and 4080, and the real SnmpSession across the 4080-octet boundary (exception vs datagram).
 Oracle: independent strict decoder / encoder of harness/py/ber.py, datagram count at the agent."""
-from lib import codec, gen, vf
+from lib import codec, gen, privhist, vf
 import ber
 
 MAX = 4080
@@ -121,6 +121,16 @@ def main(argv):
                     c.violation("a %d-octet request that fits is not produced complete and correct (%s build): `%s`" % (len(want), prof, o[:60]),
                                 {"cmd": ln, "expected": want.hex(), "observed": o, "profile": prof}, key="fitting-request-wrong")
     c.sample({"emit": lines[10][:120], "out": r[10][:120]})
+
+    # ---- the private buffers of the DES / AES keys (shared by encrypt and decrypt): after any history, what is sent after the
+    # scoped PDU is less than a block of zero octets written for THIS request, never leftovers of an earlier reply
+    ok3, log3, v3exe = vf.ocaml_build("v3", "v3_model", "v3_driver")
+    if not ok3:
+        c.errors.append("building the extracted v3 model failed: " + log3[-800:])
+        return c.finish("n/a")
+    n_hist, d, n_ct = privhist.run(c, cd, v3exe, rng, 600 if thorough else 120, keyprefix="privbuf:")
+    dis += d
+    c.coverage["privacy_buffer_histories"] = {"histories": n_hist, "ciphertexts_judged": n_ct}
 
     # ---- API level: SnmpSession across the 4080 boundary (nothing is sent when it does not fit)
     scs = []
